@@ -158,11 +158,13 @@ pub struct Probe<const KK: usize> {
     pub handled: Vec<Uid>,
     /// loop task key, learnt in `started`
     pub actor: u32,
+    /// in-actor FIFO monitor for burst traffic: client -> (next expected sequence number, handled count)
+    pub bursts: HashMap<u16, (u32, u32)>,
 }
 
 impl<const KK: usize> Probe<KK> {
     pub fn new(spec: Arc<Spec>) -> Self {
-        Probe { obj: log::uid(), tag: spec.tag, spec, seq: 0, fold: 0, handled: Vec::new(), actor: u32::MAX }
+        Probe { obj: log::uid(), tag: spec.tag, spec, seq: 0, fold: 0, handled: Vec::new(), actor: u32::MAX, bursts: HashMap::new() }
     }
     fn apply(&mut self, msg: Uid) {
         self.seq += 1;
@@ -270,6 +272,15 @@ impl<const T: u8> Message for Bcast<T> {
 
 pub struct Item {
     pub uid: Uid,
+}
+
+/// burst traffic: per-client sequence numbers, checked inside the actor without touching the event log
+pub struct Seq {
+    pub client: u16,
+    pub n: u32,
+}
+impl Message for Seq {
+    type Response = ();
 }
 
 impl<const KK: usize> Probe<KK> {
@@ -495,6 +506,9 @@ impl<const KK: usize> Actor for Probe<KK> {
         }
         let spec = Arc::clone(&self.spec);
         self.run_sscript(ctx, 1, &spec.stopped).await;
+        for (client, (_, count)) in &self.bursts {
+            log::log(K::Effect { msg: *client as u64, actor, step: 0, what: "burst_count", arg: *count as u64, ok: true });
+        }
         g.done = true;
         log::log(K::CbOut { cb: Cb::Stopped, actor, obj: self.obj, tag: self.tag, ok: true });
     }
@@ -518,6 +532,18 @@ impl<const KK: usize> Handler<Ask> for Probe<KK> {
         let actor = g.actor;
         self.exit(g);
         Reply { msg: msg.uid, actor, obj: self.obj, seq: self.seq, fold: self.fold }
+    }
+}
+
+impl<const KK: usize> Handler<Seq> for Probe<KK> {
+    async fn handle(&mut self, _ctx: &mut Context<Self>, msg: Seq) {
+        let e = self.bursts.entry(msg.client).or_insert((0, 0));
+        if msg.n != e.0 {
+            let actor = rt::now_and_task().1;
+            log::log(K::Effect { msg: ((msg.client as u64) << 32) | msg.n as u64, actor, step: 0, what: "burst_inversion", arg: e.0 as u64, ok: false });
+        }
+        e.0 = msg.n + 1;
+        e.1 += 1;
     }
 }
 
